@@ -31,6 +31,9 @@ def gen_cases(tier, seed):
     for impl in ("sync", "async"):
         for b in range(8):
             yield {"kind": "stuckall", "impl": impl, "block": b, "nblocks": 8, "seed": "%d:sa" % seed}
+    # close() right after a command whose acknowledgements are still on their way to a slow reader: what was reported as sent must still arrive
+    for j in range(2 if tier == "quick" else 8):
+        yield {"kind": "tcpclose", "impl": ("async", "sync")[j % 2], "chunks": [1300, 2000][(j // 2) % 2], "seed": "%d:tc%d" % (seed, j)}
     for i in range(80 if tier == "quick" else 1500):
         yield {"kind": "threads", "impl": "async" if i % 4 == 0 else "sync", "seed": "%d:th%d" % (seed, i)}
     sizes = [(4 * 1024 * 1024, 1024 * 1024), (300000, 65536)] if tier == "quick" else [(4 * 1024 * 1024, 1024 * 1024), (300000, 65536), (6 * 1024 * 1024 + 1, 256 * 1024), (1500000, 4096), (2 * 1024 * 1024, 1024 * 1024), (70000, 8192)]
@@ -373,12 +376,114 @@ def run_tcp(case, stats):
     return sig, viol, sample, inconclusive
 
 
+def run_tcpclose(case, stats):
+    """a device that writes a long output ahead of the acknowledgements, over real TCP with small buffers and a slow reader; the host reads it all, has
+    sent an OKAY per chunk and its CLSE, and closes at once.  Every byte a bulk_write reported as sent must reach the peer."""
+    viol = []
+    n = case["chunks"]
+    sim = simdev.SimDevice(rng=gen.rng_for("C15tc", case["seed"]), maxdata=4096, remote_ids="random")
+    sim.window = 10 ** 9
+    sim.early_close = True
+    sim.scripts[b"shell:dump"] = [b"line %05d\n" % k for k in range(n)]
+    peer = tcp_peer.TcpPeer(sim, rcvbuf=4096, read_chunk=256, read_delay=0.01)
+    sent = [0]
+    result = None
+    try:
+        if case["impl"] == "sync":
+            from adb_shell.transport.tcp_transport import TcpTransport
+            tr = TcpTransport("127.0.0.1", peer.port)
+            orig_bw = tr.bulk_write
+
+            def probe(data, timeout):
+                k = orig_bw(data, timeout)
+                sent[0] += k if isinstance(k, int) else len(data)
+                return k
+            tr.bulk_write = probe
+            dev = repo.adb_device.AdbDevice(tr, default_transport_timeout_s=5.0)
+            with tcp_peer.SndbufPatch(8192):
+                try:
+                    dev.connect(transport_timeout_s=0.3, read_timeout_s=20.0)
+                    out = dev.shell("dump", decode=False, transport_timeout_s=5.0, read_timeout_s=20.0)
+                    result = ("ret", out)
+                except Exception as e:  # noqa
+                    result = ("exc", e)
+                finally:
+                    try:
+                        dev.close()
+                    except Exception as e:  # noqa
+                        result = ("exc", e)
+        else:
+            from adb_shell.transport.tcp_transport_async import TcpTransportAsync
+
+            async def go():
+                tr = TcpTransportAsync("127.0.0.1", peer.port)
+                orig_bw = tr.bulk_write
+                orig_connect = tr.connect
+
+                async def probe(data, timeout):
+                    k = await orig_bw(data, timeout)
+                    sent[0] += k if isinstance(k, int) else len(data)
+                    return k
+
+                async def connect_small(timeout):
+                    await orig_connect(timeout)
+                    w = getattr(tr, "_writer", None)
+                    sock = w.get_extra_info("socket") if w is not None else None
+                    if sock is not None:
+                        import socket as _s
+                        sock.setsockopt(_s.SOL_SOCKET, _s.SO_SNDBUF, 8192)
+                tr.bulk_write = probe
+                tr.connect = connect_small
+                dev = repo.adb_device_async.AdbDeviceAsync(tr, default_transport_timeout_s=5.0)
+                try:
+                    await dev.connect(transport_timeout_s=0.3, read_timeout_s=20.0)
+                    out = await dev.shell("dump", decode=False, transport_timeout_s=5.0, read_timeout_s=20.0)
+                    res = ("ret", out)
+                except Exception as e:  # noqa
+                    res = ("exc", e)
+                try:
+                    await dev.close()
+                except Exception as e:  # noqa
+                    res = ("exc", e)
+                return res
+            loop = asyncio.new_event_loop()
+            try:
+                result = loop.run_until_complete(go())
+            finally:
+                loop.close()
+    finally:
+        peer.stop(drain=20.0)
+    if peer.error is not None:
+        raise RuntimeError("harness: tcp peer failed: %r" % (peer.error,))
+    stats["tcp_close_runs"] = stats.get("tcp_close_runs", 0) + 1
+    stats["tcp_bytes"] += peer.received
+    where = "%s transport: shell with %d chunks from a device that writes ahead, reader at 256 bytes / 10 ms, close() right after" % (case["impl"], n)
+    inconclusive = None
+    if result[0] == "exc":
+        inconclusive = "%s: the session raised %s: %s" % (where, type(result[1]).__name__, str(result[1])[:100])
+    else:
+        if result[1] != b"".join(sim.scripts[b"shell:dump"]):
+            viol.append({"mechanism": "wrong-output", "detail": "%s: shell returned %d bytes" % (where, len(result[1]))})
+        if peer.received != sent[0]:
+            viol.append({"mechanism": "bytes-reported-sent-never-arrived", "detail": "%s: bulk_write reported %d bytes as sent, the peer received %d before the connection ended (%d acknowledgements / the CLSE lost)" % (
+                where, sent[0], peer.received, (sent[0] - peer.received) // 24)})
+        elif sim.framing_error is not None:
+            viol.append({"mechanism": "short-write-truncates-message", "detail": "%s: the peer's parser failed: %s" % (where, sim.framing_error)})
+    return "tcpclose|%s|%d" % (case["impl"], n), viol, {"case": case, "reported_sent": sent[0], "peer_received": peer.received, "outcome": result[0]}, inconclusive
+
+
 def run_case(case):
     stats = {"short_writes": 0, "write_calls": 0, "messages_compared": 0, "tcp_pushes": 0, "tcp_short_sends": 0, "tcp_bytes": 0, "sndbuf_applied": 0, "tcp_inconclusive": 0, "stuck_runs": 0, "stalled_pushes_raised": 0, "stalled_pushes": 0}
     if case["kind"] == "mem":
         sig, viol, sample = run_mem(case, stats)
     elif case["kind"] == "threads":
         sig, viol, sample = run_threads(case, stats)
+    elif case["kind"] == "tcpclose":
+        for attempt in range(2):
+            sig, viol, sample, inc = run_tcpclose(case, stats)
+            if not inc:
+                break
+            stats["tcp_inconclusive"] += 1
     elif case["kind"] == "stuckall":
         sig, viol, sample, ev = run_stuckall(case, stats)
         seen = {}
